@@ -112,7 +112,7 @@ func Main(property string) {
 		}
 		side := coqfmt.Sidecar{Kind: kindOf(sc), Nontrivial: nontrivial(sc, res)}
 		summary := map[string]interface{}{"scenario": sc, "outcomes": res.Outcomes, "close_ok": res.CloseOK, "requests": len(res.Requests),
-			"hook_points": len(res.Events), "interceptor_calls": res.IcCalls}
+			"hook_points": len(res.Events), "interceptor_calls": res.IcCalls, "wall_ms": res.Wall.Milliseconds()}
 		if sc.Sync {
 			summary["sync_returns"] = res.SyncReturns
 		}
@@ -142,6 +142,26 @@ func Main(property string) {
 			} else {
 				// a log that cannot be segmented is a broken tie, not silently skipped
 				term = "mkCase " + sc.CoqCfg() + " [] [] [] [] [] [] [] [(0, true, 0)]"
+			}
+		}
+		if *dump && *replay != "" {
+			for _, e := range res.Events {
+				line := fmt.Sprintf("EV %4d g%-4d %-18s", e.Seq, e.Goid, e.Kind)
+				if e.Msg != nil {
+					line += fmt.Sprintf(" msg{id=%d r=%d f=%d p=%d seq=%d/%d/%v}", e.Msg.ID, e.Msg.Retries, e.Msg.Flags, e.Msg.Partition, e.Msg.Seq, e.Msg.Epoch, e.Msg.HasSeq)
+				}
+				line += fmt.Sprintf(" err=%d flag=%v tp=%s/%d hwm=%d hasbp=%v leader=%d buf=%d closing=%v retrying=%v txn=%d lens=%v ch=%v", e.Err, e.Flag, e.Topic, e.Partition, e.HWM, e.HasBP, e.Leader, e.BufCount, e.Closing, e.Retrying, e.TxnEpoch, e.LevelBufLen, e.LevelChaser)
+				for _, p := range e.Set {
+					line += fmt.Sprintf(" [%s/%d v=%d:", p.Topic, p.Partition, p.Verdict)
+					for _, m := range p.Msgs {
+						line += fmt.Sprintf(" %d(r%d)", m.ID, m.Retries)
+					}
+					line += "]"
+				}
+				if e.Kind == "bp.response" {
+					line += fmt.Sprintf(" resperr=%d", e.RespErr)
+				}
+				fmt.Println(line)
 			}
 		}
 		if *dump {
